@@ -32,6 +32,14 @@ Struct(s) ==
                                    <<AList(<<AInt(1)>>), ADict(<<K(K_c)>>, <<ATuple(<<AInt(1), AList(<<AInt(2)>>)>>)>>)>>))>>
     ELSE IF s = "tuple" THEN
         <<SAssign(TVar("x"), ATuple(<<AList(<<AInt(1), AInt(2)>>), ADict(<<K(K_k)>>, <<AInt(1)>>)>>))>>
+    ELSE IF s = "struct" THEN      \* x = struct(a = [1, 2], b = {"k": [3]}, c = set([1, 2]))
+        <<SAssign(TVar("x"), ACallN(AVar("struct"), <<>>,
+              <<ANamed("a", K_a, AList(<<AInt(1), AInt(2)>>)),
+                ANamed("b", K_b, ADict(<<K(K_k)>>, <<AList(<<AInt(3)>>)>>)),
+                ANamed("c", K_c, ACall(AVar("set"), <<AList(<<AInt(1), AInt(2)>>)>>))>>))>>
+    ELSE IF s = "set" THEN         \* a set inside a list, and aliased
+        <<SAssign(TVar("sh"), ACall(AVar("set"), <<AList(<<AInt(1), AInt(2)>>)>>)),
+          SAssign(TVar("x"), AList(<<AVar("sh"), ATuple(<<AVar("sh")>>)>>))>>
     ELSE \* "closure": a function with captured list and a default argument holding a dict
         <<SAssign(TVar("cap"), AList(<<AInt(1)>>)),
           SDef("fn", <<AParam("v", <<118>>), [n |-> "d", ncp |-> <<100>>, kind |-> "normal", d |-> ADict(<<K(K_n)>>, <<AInt(0)>>)]>>,
@@ -69,12 +77,23 @@ Paths(s) ==
                              PP(AIndex(AIndex(AIndex(XV, K(K_b)), K(K_c)), AInt(1)), "list")}
     ELSE IF s = "tuple" THEN {PP(AIndex(XV, AInt(0)), "list"), PP(AIndex(XV, AInt(1)), "dict")}
     ELSE IF s = "factory" THEN {PP(AIndex(XV, AInt(0)), "list")}
+    ELSE IF s = "struct" THEN {PP(ADot(XV, "a", K_a), "list"), PP(ADot(XV, "b", K_b), "dict"),
+                               PP(AIndex(ADot(XV, "b", K_b), K(K_k)), "list"), PP(ADot(XV, "c", K_c), "set")}
+    ELSE IF s = "set" THEN {PP(AIndex(XV, AInt(0)), "set"), PP(AIndex(AIndex(XV, AInt(1)), AInt(0)), "set"), PP(AVar("sh"), "set")}
     ELSE {PP(XV, "list"), PP(AIndex(XV, AInt(0)), "list"), PP(AVar("cap"), "list")}
 
 ListMuts == {"append", "extend", "insert", "pop", "remove", "clear", "setitem", "augadd", "augitem", "augvar"}
 DictMuts == {"setnew", "setold", "pop", "setdefault", "update", "clear", "augitem"}
+SetMuts == {"add", "sremove", "discard", "spop", "sclear", "supdate"}
 Mut(T, kind, mut) ==
-    IF kind = "list" THEN
+    IF kind = "set" THEN
+        (IF mut = "add" THEN SExpr(AMCall(T, "add", <<AInt(9)>>))
+         ELSE IF mut = "sremove" THEN SExpr(AMCall(T, "remove", <<AInt(1)>>))          \* an element that is present
+         ELSE IF mut = "discard" THEN SExpr(AMCall(T, "discard", <<AInt(1)>>))
+         ELSE IF mut = "spop" THEN SExpr(AMCall(T, "pop", <<>>))
+         ELSE IF mut = "sclear" THEN SExpr(AMCall(T, "clear", <<>>))
+         ELSE SExpr(AMCall(T, "update", <<AList(<<AInt(9)>>)>>)))
+    ELSE IF kind = "list" THEN
         (IF mut = "append" THEN SExpr(AMCall(T, "append", <<AInt(9)>>))
          ELSE IF mut = "extend" THEN SExpr(AMCall(T, "extend", <<AList(<<AInt(8)>>)>>))
          ELSE IF mut = "insert" THEN SExpr(AMCall(T, "insert", <<AInt(0), AInt(9)>>))
@@ -105,9 +124,18 @@ Probe(s) ==
       SEmit(ACall(AVar("len"), <<XV>>))>>
     \o (IF s = "cyclic" THEN <<>> ELSE <<SEmit(ACall(AVar("str"), <<XV>>)), SEmit(ACall(AVar("repr"), <<XV>>))>>)
     \o (IF s = "aliased" THEN <<SEmit(ABin("==", AIndex(XV, AInt(0)), AVar("sh")))>> ELSE <<>>)
+    \o (IF s = "set" THEN <<SEmit(ABin("==", AIndex(XV, AInt(0)), AVar("sh")))>> ELSE <<>>)
+    \o (IF s = "struct" THEN <<SEmit(ABin("==", XV, XV)), SEmit(ADot(XV, "a", K_a))>> ELSE <<>>)
     \o (IF s = "factory" THEN <<SEmit(ACall(AVar("rdr"), <<>>))>> ELSE <<>>)
 ReadOps(T, kind) ==
-    IF kind = "list" THEN
+    IF kind = "set" THEN
+        <<SEmit(ACall(AVar("len"), <<T>>)),
+          SEmit(ACall(AVar("list"), <<T>>)),
+          SEmit(ABin("in", AInt(1), T)),
+          SEmit(ABin("|", T, ACall(AVar("set"), <<AList(<<AInt(5)>>)>>))),
+          SEmit(AMCall(T, "union", <<AList(<<AInt(6)>>)>>)),
+          SEmit(ACompr(AVar("q"), <<AFor(TVar("q"), T)>>))>>
+    ELSE IF kind = "list" THEN
         <<SEmit(ACall(AVar("len"), <<T>>)),
           SEmit([k |-> "slice", e |-> T, lo |-> ABSENT, hi |-> AInt(1), st |-> ABSENT, line |-> 0]),
           SEmit(ACompr(AVar("q"), <<AFor(TVar("q"), T)>>)),
@@ -130,17 +158,21 @@ ChunkB(c) == IF c.s = "factory" THEN FactoryB \o Probe(c.s) ELSE <<>>
 Importer(c) == <<Probe(c.s), MutStmts(c.p.e, c.p.kind, c.mut), Probe(c.s), ReadOps(c.p.e, c.p.kind)>>
                  \o (IF c.s \in {"closure", "factory"} THEN <<CallFnStmt, Probe(c.s)>> ELSE <<>>)
 Mods(c) == IF c.two THEN <<Importer(c), Importer(c)>> ELSE <<Importer(c)>>
-Loaded(c) == IF c.s = "aliased" THEN <<"x", "sh">> ELSE IF c.s = "closure" THEN <<"x", "cap", "fn">>
+Loaded(c) == IF c.s = "aliased" \/ c.s = "set" THEN <<"x", "sh">> ELSE IF c.s = "closure" THEN <<"x", "cap", "fn">>
              ELSE IF c.s = "factory" THEN <<"x", "fn", "rdr">> ELSE <<"x">>
-LoadedMid(c) == <<"data", "make_app", "make_rd">>
+(* loaded in the reverse of A's declaration order, so that no name has the same slot in B as in A:
+   a closure that resolved A's globals against B's slot table would read something else *)
+LoadedMid(c) == <<"make_rd", "make_app", "data">>
 
+Structures == {"nested", "aliased", "cyclic", "dict", "tuple", "closure", "factory", "struct", "set"}
 Cases == {[s |-> s, p |-> p, mut |-> m, two |-> t] :
-             s \in {"nested", "aliased", "cyclic", "dict", "tuple", "closure", "factory"},
-             p \in UNION {Paths(s2) : s2 \in {"nested", "aliased", "cyclic", "dict", "tuple", "closure", "factory"}},
-             m \in ListMuts \cup DictMuts, t \in BOOLEAN}
+             s \in Structures,
+             p \in UNION {Paths(s2) : s2 \in Structures},
+             m \in ListMuts \cup DictMuts \cup SetMuts, t \in BOOLEAN}
 Valid(c) == /\ c.p \in Paths(c.s)
             /\ (c.p.kind = "list" => c.mut \in ListMuts)
             /\ (c.p.kind = "dict" => c.mut \in DictMuts)
+            /\ (c.p.kind = "set" => c.mut \in SetMuts)
 
 VARIABLES case, done, exp
 Init == case \in {c \in Cases : Valid(c)} /\ done = FALSE /\ exp = <<>>
